@@ -923,7 +923,7 @@ def eval_dyad_rotate(a, b, backend):
         return b
     j = isinstance(b, str)
     b = backend.str_to_chr_arr(b) if j else b
-    r = bknp.roll(b, a)
+    r = bknp.roll(b, a, axis=0)
     return "".join(r) if j else r
 
 
